@@ -113,7 +113,9 @@ Last(s) == s[Len(s)]
 RECURSIVE Eval(_, _)
 EvalArgs(args, env) == [j \in 1..Len(args) |-> Eval(args[j], env)]
 Eval(n, env) ==
-  CASE n.op = "lit" -> IF n.ty \in {"usize", ""} THEN (IF n.n >= 0 THEN Num(n.n) ELSE Unk("large usize literal"))
+  CASE n.op = "lit" -> IF n.ty \in {"usize", ""} THEN (IF n.n >= 0 THEN Num(n.n)
+                                                      ELSE IF n.ty = "" THEN ConstBV(128, FALSE, SeqToSet(n.bits))    \* a wide untyped integer literal
+                                                      ELSE Unk("large usize literal"))
                        ELSE IF n.ty \in IntTypes THEN ConstBV(TyW(n.ty), TySigned(n.ty), SeqToSet(n.bits))
                        ELSE Unk("literal type " \o n.ty)
     [] n.op = "blit" -> Bool(IF n.v THEN One ELSE Zero)
@@ -166,7 +168,9 @@ Eval(n, env) ==
          ELSE IF c.k # "bool" THEN Unk("condition")
          ELSE IF c.b = One THEN Eval(n.t, env) ELSE IF c.b = Zero THEN Eval(n.e, env)
          ELSE Merge(c.b, Eval(n.t, env), Eval(n.e, env))
-    [] n.op = "let" -> LET v == Eval(n.e, env) IN
+    [] n.op = "let" -> LET v0 == Eval(n.e, env)
+                           v == IF n.ty \in IntTypes /\ v0.k = "bv" /\ ~v0.arb /\ v0.w # TyW(n.ty) THEN Cast(v0, n.ty)
+                                ELSE IF n.ty \in IntTypes /\ v0.k = "n" THEN Cast(v0, n.ty) ELSE v0 IN
          IF v.k = "panic" THEN v ELSE Eval(n.body, (n.name :> v) @@ env)
     [] n.op = "assert" -> LET c == Eval(n.c, env) IN
          IF IsBad(c) THEN c
@@ -237,7 +241,12 @@ Eval(n, env) ==
          ELSE IF a.k = "arr" /\ i.k = "n" THEN (IF i.n < Len(a.elems) THEN a.elems[i.n + 1] ELSE Panic("index out of bounds"))
          ELSE Unk("indexing")
     [] n.op = "path" ->
-         IF Last(n.segs) = "DEFAULT" /\ "$default" \in DOMAIN env THEN env["$default"]
+         IF "$fns" \in DOMAIN env /\ ("const:" \o Last(n.segs)) \in DOMAIN env["$fns"] /\ "$evalconsts" \in DOMAIN env
+         THEN LET c == env["$fns"]["const:" \o Last(n.segs)]             \* an associated const of the struct: evaluate ITS recorded
+                  v == Eval(c.body, env)                                   \* body and give it its declared type
+              IN IF c.ty \in IntTypes /\ v.k = "bv" /\ ~v.arb THEN Cast(v, c.ty)
+                 ELSE IF c.ty \in IntTypes /\ v.k = "n" THEN Cast(v, c.ty) ELSE v
+         ELSE IF Last(n.segs) = "DEFAULT" /\ "$default" \in DOMAIN env THEN env["$default"]
          ELSE IF Last(n.segs) = "ZERO" /\ "$zero" \in DOMAIN env THEN env["$zero"]
          ELSE Unk("path")
     [] OTHER -> Unk("IR node " \o n.op)
@@ -339,9 +348,44 @@ JudgeBuild(d, o) ==
      ELSE IF r.raw = BuildExpected(d) THEN [res |-> "ok", why |-> ""]
      ELSE [res |-> "mismatch", why |-> "builder", detail |-> Describe(BuildExpected(d), r.raw)]
 
+---------------------------------------------------------------------------
+(* C06 / C11 for all raw values: new_with_raw_value(r).raw_value() = r, nothing stored at or above bit N; ZERO; DEFAULT *)
+BaseIn(d) == IF d.n = d.s THEN BV(d.s, FALSE, FALSE, LAMBDA i : Lit("r", i)) ELSE BV(d.n, FALSE, TRUE, LAMBDA i : Lit("r", i))
+(* DEFVAL is the user's own named constant in declarations whose default is given by name (its value is the declaration's) *)
+StructEnv(d, o) == [x \in {"$fns", "$self", "$evalconsts", "DEFVAL"} |->
+                      IF x = "$fns" THEN o.fns ELSE IF x = "$self" THEN d
+                      ELSE IF x = "DEFVAL" THEN ConstBV(d.s, FALSE, InitialValue(d)) ELSE TRUE]
+JudgeRound(d, o) ==
+  LET base == StructEnv(d, o)
+      made == Eval(o.fns["new_with_raw_value"].body, ("value" :> BaseIn(d)) @@ base)
+      back == IF made.k = "obj" THEN Eval(o.fns["raw_value"].body, ("self.raw_value" :> made.raw) @@ base) ELSE made
+      expraw == BV(d.s, FALSE, FALSE, LAMBDA i : IF i < d.n THEN Lit("r", i) ELSE Zero)
+  IN IF made.k = "unk" THEN [res |-> "undecided", why |-> made.why]
+     ELSE IF made.k = "panic" THEN [res |-> "overflow", why |-> made.why]
+     ELSE IF made.k # "obj" THEN [res |-> "undecided", why |-> "new_with_raw_value does not produce the struct"]
+     ELSE IF made.raw # expraw THEN [res |-> "mismatch", why |-> "new_with_raw_value", detail |-> Describe(expraw, made.raw)]
+     ELSE IF back.k = "unk" THEN [res |-> "undecided", why |-> back.why]
+     ELSE IF back.k = "panic" THEN [res |-> "overflow", why |-> back.why]
+     ELSE IF back = BaseIn(d) THEN [res |-> "ok", why |-> ""]
+     ELSE [res |-> "mismatch", why |-> "raw_value", detail |-> Describe(BaseIn(d), back)]
+JudgeConst(d, o) ==
+  LET base == StructEnv(d, o)
+      nm == IF o.op = "zero" THEN "const:ZERO" ELSE "const:DEFAULT"
+      exp == ConstObj(d, IF o.op = "zero" THEN {} ELSE InitialValue(d))
+      r == IF nm \in DOMAIN o.fns THEN Eval(o.fns[nm].body, base) ELSE Unk("no such constant")     \* ZERO / DEFAULT have type Self
+  IN IF r.k = "unk" THEN [res |-> "undecided", why |-> r.why]
+     ELSE IF r.k = "panic" THEN [res |-> "overflow", why |-> r.why]
+     ELSE IF r = exp THEN [res |-> "ok", why |-> ""]
+     ELSE IF r.k = "obj" THEN [res |-> "mismatch", why |-> o.op, detail |-> Describe(exp.raw, r.raw)]
+     ELSE [res |-> "undecided", why |-> "constant is not the struct"]
+
 Decls == JsonDeserialize(IOEnv.DECLFILE)
 Obls  == JsonDeserialize(IOEnv.OBLFILE)
-Report(j) == LET o == Obls[j]  v == IF o.op = "build" THEN JudgeBuild(Decls[o.decl + 1], o) ELSE Judge(Decls[o.decl + 1], o) IN
+Report(j) == LET o == Obls[j]
+                 v == CASE o.op = "build" -> JudgeBuild(Decls[o.decl + 1], o)
+                        [] o.op = "roundtrip" -> JudgeRound(Decls[o.decl + 1], o)
+                        [] o.op \in {"zero", "default"} -> JudgeConst(Decls[o.decl + 1], o)
+                        [] OTHER -> Judge(Decls[o.decl + 1], o) IN
              IF v.res = "ok" THEN TRUE
              ELSE PrintT(<<"SYM", ToJson([j |-> j, decl |-> o.decl, field |-> o.field, op |-> o.op, idx |-> o.idx, verdict |-> v])>>)
 (* the obligations are evaluated inside the next-state relation, i.e. by a TLC worker thread whose stack size is set by -Xss
